@@ -43,7 +43,7 @@ def gen_cases(tier, seed):
     for i in range(16 if tier == "quick" else 100):
         cases.append({"kind": "msd", "crystal": {"name": names[i % len(names)], "order": "asis"}, "mesh": [int(v) for v in rng.integers(1, 4, 3)],
                       "fmin": [None, 0.5][rng.integers(2)], "fmax": [None, 6.0][rng.integers(2)], "seed": int(rng.integers(10 ** 6)), "_cost": 200,
-                      "heavy": bool(i % 4 == 3)})  # heavy: masses x 2500 -> spectrum / 50, so that h nu ~ k_B T around 1 K
+                      "heavy": bool(rng.integers(4) == 3)})  # heavy: masses x 2500 -> spectrum / 50, so that h nu ~ k_B T around 1 K
     return cases
 
 
